@@ -37,7 +37,7 @@ CHECKS = {
     "C10": {"level": "exploration", "tests": [hist("TestC10"), hist("TestC10Twin", q=200, t=1500)], "assumptions": COMMON_ASSUMPTIONS},
     "C11": {"level": "exploration", "tests": [hist("TestC11"), hist("TestC11Twin", q=200, t=1500)], "assumptions": COMMON_ASSUMPTIONS},
     "C12": {"level": "exploration", "tests": [hist("TestC12"), hist("TestC12Twin", q=200, t=1500)], "assumptions": COMMON_ASSUMPTIONS},
-    "C13": {"level": "exploration", "tests": [direct("TestC13", q=20000, t=200000)], "assumptions": COMMON_ASSUMPTIONS},
+    "C13": {"level": "exploration", "tests": [direct("TestC13", q=20000, t=200000), hist("TestC13History", t=1500)], "assumptions": COMMON_ASSUMPTIONS},
     "C14": {"level": "exploration", "tests": [det("TestC14"), direct("TestC14Random", q=20000, t=300000)], "assumptions": ["the property sentence is restated independently in harness/ref/ref.go"]},
     "C15": {"level": "exploration", "tests": [direct("TestC15Direct", q=3000, t=50000), hist("TestC15History")], "assumptions": COMMON_ASSUMPTIONS},
     "C16": {"level": "exploration", "tests": [det("TestC16Validation"), direct("TestC16ValidationRandom", q=20000, t=300000), direct("TestC16Decode", q=2000, t=30000),
